@@ -6,7 +6,7 @@ import collections
 import json
 import os
 
-from ..common import Report, main_wrapper, scratch, seed, run_tlc, MachineryError, tlc_failure_excerpt
+from ..common import Report, main_wrapper, scratch, eff_seed, run_tlc, MachineryError, tlc_failure_excerpt
 from .. import purity
 from .args import parse
 
@@ -18,7 +18,7 @@ def main():
     rep = Report("C07", a.tier, "model_checking")
     quick = a.tier == "quick"
     sel = (lambda m, p: a.only in p.name()) if a.only else None
-    recs = purity.run(MODULES, seed(), sessions=1 if quick else 12, length=12 if quick else 30, select=sel,
+    recs = purity.run(MODULES, eff_seed(), sessions=1 if quick else 12, length=12 if quick else 30, select=sel,
                       sweep=80 if quick else 100000)
     with scratch() as d:
         path = os.path.join(d, "sessions.json")
